@@ -7,4 +7,8 @@ RRepeats == {33}
 RFactors == {<<3, 2>>, <<1, 2>>}
 ROps == {"Add", "AddWithCount", "Merge", "CopyTo", "Clear", "Reweight", "EncDec"}
 RInit == (1 :> NewStore("low", 2)) @@ (2 :> NewStore("low", 4))
+RSlotKeys == (1 :> {0, 2, 4}) @@ (2 :> {0, 2, 4})
+RAsc == {}
+RDesc == {}
+RPairs == {}
 ====
